@@ -81,8 +81,8 @@ func (c *c08) RunCase(w *core.Worker, idx int, seed uint64, res *core.CaseResult
 	}
 	changed := false
 	prevActive := map[string]string{}
-	taint := map[string]bool{}  // choice instances that hold legitimately orphaned nodes
-	mustGo := map[string]bool{} // orphaned nodes of a case that lost against a live intent at the time of the orphan delete
+	taint := map[string]bool{}          // choice instances that hold legitimately orphaned nodes
+	mustGo := map[string]bool{}         // orphaned nodes of a case that lost against a live intent at the time of the orphan delete
 	lostByPresence := map[string]bool{} // paths the device lost through the delete of their presence container (C01 finding)
 	for s := 0; s < steps && !c08Stop(res); s++ {
 		step := run.genStep(3)
@@ -128,7 +128,7 @@ func (c *c08) RunCase(w *core.Worker, idx int, seed uint64, res *core.CaseResult
 			for _, cd := range choiceDefs {
 				if inst, cn := cd.member(k); inst != "" {
 					key := inst + "#" + cd.name
-					if active[key] != "" && active[key] != cn {
+					if active[key] != "" && active[key] != cn && !taint[key] {
 						mustGo[k] = true
 					} else {
 						taint[key] = true
